@@ -144,7 +144,7 @@ pub fn check(case: &Case) -> Verdict {
     };
     // the answers depend on the operands only
     let h = crate::hist::mix(&[crate::hist::mix_str(&case.a), crate::hist::mix_str(&case.b), case.ty as u64, case.ua as u64, case.ub as u64]);
-    if h % 4 == 0 {
+    if h % 16 == 0 {
         if let Some(m) = crate::hist::independent(h, &|| format!("{:?}", run())) {
             fail!("{}: comparing {} {}", tname, case.note, m);
         }
